@@ -192,6 +192,16 @@ def run(tier: str, seed: int) -> Tuple[Stats, str, List[str], Dict[str, Any]]:
                 want_d = same_name and a.type == b.type and a.class_ == b.class_
                 if (a in cache.get_all_by_details(b.name, b.type, b.class_)) != want_d:
                     bad.append((i, j, f"DNSCache.get_all_by_details finds the record: {not want_d}, expected {want_d}"))
+                if want_d and hasattr(a, "set_created_ttl") and hasattr(cache, "async_mark_unique_records_older_than_1s_to_expire"):
+                    # the cache-flush rule (RFC 6762 s.10.2) goes by the same identity: a record received with the flush bit
+                    # displaces the cached records of its name, type and class - in any spelling - that are not the same record
+                    c0, t0_ = a.created, a.ttl
+                    a.set_created_ttl(1000.0, 120)
+                    cache.async_mark_unique_records_older_than_1s_to_expire({(b.name, b.type, b.class_)}, [b], 7000.0)
+                    marked = (a.created, a.ttl) == (7000.0, 1)
+                    a.set_created_ttl(c0, t0_)
+                    if marked != (not want):
+                        bad.append((i, j, f"cache flush by the second record marks the cached first one: {marked}, same record: {want}"))
                 if not isinstance(b, DNSNsec):
                     g2 = cache.get(b)
                     if (g2 is a) != want:
